@@ -101,6 +101,43 @@ fn cmd_replay(path: &str) -> ExitCode {
     }
 }
 
+/// Debug aid: a C08 damage replay step by step (documented end of log, what recovery writes, what the restart shows).
+fn cmd_dbg_damage(path: &str) -> ExitCode {
+    world::install_panic_hook_once();
+    let text = std::fs::read_to_string(path).expect("read");
+    let v: serde_json::Value = serde_json::from_str(&text).expect("json");
+    let found: Found = serde_json::from_value(v["found"].clone()).expect("found");
+    let fault::Fault::Damage { ops } = &found.fault else { return ExitCode::from(2) };
+    let Some((d, image, parsed)) = damage::base_image(&found.case) else { return ExitCode::from(2) };
+    println!("files: {:?}", parsed.files);
+    let damaged = damage::apply_damage(&image, ops);
+    println!("documented end of the undamaged image: {:?}", damage::documented_end_of_log(&image));
+    println!("documented end of the damaged image:   {:?}", damage::documented_end_of_log(&damaged));
+    println!("route on damaged image: {}", damage::embedded_frame_route(&damaged));
+    let policy = d.world.policy;
+    match crash::recover(&damaged, &d.names, policy, &found.case.knobs) {
+        Err((e, _)) => println!("open failed: {}", crash::open_fail_text(&e)),
+        Ok((mut w, obs)) => {
+            println!("first open: queues {:?}", obs.queues.iter().map(|(n, q)| (n.len(), q.recs.len(), q.last_position)).collect::<Vec<_>>());
+            for e in w.fs.borrow().trace.iter() {
+                match &e.eff {
+                    simfs::Eff::Read { .. } | simfs::Eff::Seek { .. } => {}
+                    other => println!("   recovery effect: {}", format!("{:?}", other).chars().take(160).collect::<String>()),
+                }
+            }
+            w.close();
+            let after = w.image();
+            println!("files after recovery: {:?}", walparse::wal_files(&after).iter().map(|(n, d)| (n.clone(), d.len())).collect::<Vec<_>>());
+            println!("documented end after recovery: {:?}; route: {}; writer resumed at documented end: {}", damage::documented_end_of_log(&after), damage::embedded_frame_route(&after), damage::writer_resumed_at_documented_end(&damaged, &after));
+            let _ = w.open();
+            if let Ok(o2) = w.observe() {
+                println!("second open: queues {:?}", o2.queues.iter().map(|(n, q)| (n.clone().chars().take(4).collect::<String>(), q.recs.len(), q.last_position)).collect::<Vec<_>>());
+            }
+        }
+    }
+    ExitCode::SUCCESS
+}
+
 /// Debug aid: prints the ops and effect trace of a replay file's history.
 fn cmd_trace(path: &str) -> ExitCode {
     world::install_panic_hook_once();
@@ -318,6 +355,7 @@ fn main() -> ExitCode {
             cmd_check(&prop, tier)
         }
         Some("trace") => cmd_trace(args.get(2).map(|s| s.as_str()).unwrap_or("")),
+        Some("dbg-damage") => cmd_dbg_damage(args.get(2).map(|s| s.as_str()).unwrap_or("")),
         Some("replay") => cmd_replay(args.get(2).map(|s| s.as_str()).unwrap_or("")),
         Some("digests") => {
             let prop = args.get(2).cloned().unwrap_or_default();
